@@ -57,6 +57,21 @@ theorem no_size_cache : sizeCacheMentions = 0 := by decide
 theorem unknown_fields_handled : ∀ t ∈ unknownHandling, t.2.1 = true ∧ t.2.2.1 = true ∧ t.2.2.2 = true := by decide
 theorem unknown_fields_both_templates : unknownHandling.map (·.1) = ["singlefile.go.tmpl", "permessage.go.tmpl"] := by decide
 
+/-- **C07 / C09 (ownership of the result)**: in both file templates `Marshal()` fills a buffer it allocates in that
+    very call (`buf := make([]byte, siz)`, never re-assigned) and every `return` hands out either that buffer or
+    the empty literal — never a slice the message keeps (its retained unknown bytes, a cached encoding): the
+    result is the caller's, which is what the model assumes by treating the result as a VALUE (`Gen.marshal`
+    returns `Bytes`, later writes to it cannot reach the message) -/
+theorem marshal_result_is_fresh :
+    ∀ t ∈ marshalReturns, t.2.1 = true ∧ ∀ r ∈ t.2.2, r = "[]byte{}, nil" ∨ r = "buf, err" := by decide
+theorem marshal_result_both_templates : marshalReturns.map (·.1) = ["singlefile.go.tmpl", "permessage.go.tmpl"] := by decide
+
+/-- **C07**: nothing in the hand-written package — which the generated `Unmarshal` calls into in the middle of
+    its loop (`csproto.SetExtension` in the extension arms, the `Decoder`) — reads or writes a message's
+    unknown-field storage: the retained bytes change only where the model says they do (the `default:` arm
+    of the generated loop appends, `Reset` clears) -/
+theorem shim_leaves_unknown_store_alone : shimUnknownStoreMentions = 0 := by decide
+
 /-- **C17**: the empty shortcuts of `Marshal`/`Unmarshal` are only generated for message types without
     required fields, `Unmarshal` ends with the required-field check, and no `EncodeNested` error is dropped -/
 theorem required_guards : ∀ t ∈ requiredGuards, t.2.1 = true ∧ t.2.2.1 = true ∧ t.2.2.2 = true := by decide
